@@ -115,7 +115,7 @@ fn decoy_body(n: usize, tag: usize) -> Vec<u8> {
     v
 }
 
-fn gen_message(conn: usize, i: usize, s: usize, last: bool) -> Option<(Req, bool)> {
+fn gen_message(conn: usize, i: usize, s: usize, last: bool, allow_ambiguous: bool) -> Option<(Req, bool)> {
     let path = format!("/c{conn}r{i}");
     let method = gen::pick(&["GET", "M", "DELETE", "POST", "PUT"]).to_string();
     let cl_name = || gen::pick(&["content-length", "Content-Length", "CONTENT-LENGTH"]).to_string();
@@ -164,7 +164,7 @@ fn gen_message(conn: usize, i: usize, s: usize, last: bool) -> Option<(Req, bool
     // --- Transfer-Encoding multiset (not together with a Content-Length: not pinned)
     let mut tes: Vec<(String, String)> = Vec::new();
     let valid_single_cl = cls.len() == 1 && !huge && cls[0].1.trim_matches(|c| c == ' ' || c == '\t').bytes().all(|b| b.is_ascii_digit()) && !cls[0].1.trim_matches(|c| c == ' ' || c == '\t').is_empty();
-    if valid_single_cl && gen::ratio(1, 10) {
+    if allow_ambiguous && valid_single_cl && gen::ratio(1, 10) {
         // a transfer coding next to a length (0 included)
         if gen::ratio(1, 2) {
             cls[0].1 = "0".into();
@@ -335,7 +335,7 @@ fn scenario(cfg: &RunCfg) -> Outcome {
         let mut tries = 0;
         loop {
             tries += 1;
-            if let Some((r, amb)) = gen_message(0, i, s, i + 1 == n) {
+            if let Some((r, amb)) = gen_message(0, i, s, i + 1 == n, ambiguous.len() < 2) {
                 if amb {
                     ambiguous.push(reqs.len());
                     gen::count("probe.coding_and_length_together");
